@@ -17,8 +17,11 @@ func init() {
 	register(&CheckDef{Name: "decl", Props: []string{"C18"}, Run: runDecl, Replay: replayDecl})
 }
 
-var c18OptNames = []string{"a", "b", "aa", "bb"}
-var c18ArgNames = []string{"X", "Y", "X1", "X_Y", "x", "Xy", "1X", "_X", "X-Y", "OPTIONS", "é", "", "X.", "[X]", "ARG_2_", "X|Y"}
+// "é" is one character but two bytes: a name longer than one byte is a long option (--é)
+var c18OptNames = []string{"a", "b", "aa", "bb", "é"}
+var c18ArgNames = []string{"X", "Y", "X1", "X_Y", "x", "Xy", "1X", "_X", "X-Y", "OPTIONS", "é", "", "X.", "[X]", "ARG_2_", "X|Y",
+	// upper-case letters and digits outside ASCII are not part of the spec language's argument names
+	"É", "XÉ", "Σ", "X٣"}
 var argNameRE = regexp.MustCompile(`^[A-Z][A-Z0-9_]*$`)
 
 func c18NameLists() []string {
